@@ -148,6 +148,8 @@ def gen_ramp_only(rng, tier, index, seed):
     n = 1
     while n * (base_b + n * step * unit // 2 + small * 32) < volume and n < 2000000:
         n = int(n * 1.3) + 1
+    # ... and bounded in allocation count (every allocation passes through the simulator's hooks: about 10^6 per second)
+    n = max(10, min(n, (8000000 if tier == "quick" else 25000000) // (small + 2)))
     ops = ["(set-roots! 8)", "(ramp %d %d %d %d %d)" % (kind, base_b // unit, step, n, small), "(drop-burst 0 1)", "(sim-gc)", "(count-live)"]
     steps = [{"op": "eval", "src": PRELUDE}] + [{"op": "eval", "src": o} for o in ops]
     return {"prop": ID, "index": index, "seed": seed, "config": "sim", "meta": {"family": "ramp-only"},
